@@ -118,6 +118,23 @@ def infix_lets(rng, g):
     ])
 
 
+def format_lets(rng, g):
+    """format strings with several embedded programs: each `%( … %)` is a scope of its own — a bare `let` in one part
+    neither reaches the other parts nor collides with their names"""
+    a, b, c = g.lit("c")[0], g.lit("c")[0], g.lit("c")[0]
+    return rng.choice([
+        'let A := %s; "%%( A %%)-%%( let A := %s; A %%)-%%( A %%)"' % (a, b),
+        '"%%( let A := %s; A %%) %%( let A := %s; A %%)"' % (a, b),
+        'let A := %s; "%%( let A := %s; A %%)%%( A %%)"' % (a, b),
+        '"%%( let T := %s; T %%)|%%( T %%)"' % a,                                  # unbound in the second part
+        '"%%( T %%)|%%( let T := %s; T %%)"' % a,                                  # … and in the first
+        'let B := %s; "x%%( B %%)y%%( let B := %s; let C := B; C %%)z%%( B %%)%%( let C := %s; C %%)"' % (a, b, c),
+        '(|N| "%%( let N := %s; N %%):%%( N %%):%%( let M := N; M %%):%%s")' % a,
+        '%s "%%( (|X| X) %%)%%( let X := %s; X %%)%%( (|X| X X) %%)"' % (a, b),
+        'let A := %s; "%%( "%%( let A := %s; A %%)%%( A %%)" %%)%%( A %%)"' % (a, b),      # nested strings
+    ])
+
+
 def alpha_rename(p, rng):
     """consistently rename the single-capital-letter names of a program"""
     names = sorted(set(re.findall(r"\b[A-Z]\b", p)))
@@ -143,7 +160,8 @@ def run(ctx):
         n = 0
     for _ in range(n):
         k = rng.random()
-        progs.append(binder_program(rng, g) if k < 0.7 else nested_blocks(rng, g) if k < 0.9 else infix_lets(rng, g))
+        progs.append(binder_program(rng, g) if k < 0.65 else nested_blocks(rng, g) if k < 0.85 else infix_lets(rng, g)
+                     if k < 0.93 else format_lets(rng, g))
     stats, irecs, mrecs = zwcorr.run_programs(ctx, h, progs, theorem="ZwVerif.C03.* / engine = ZwVerif.sem",
                                              label="C03-programs")
     # alpha-renaming on the implementation alone
